@@ -149,7 +149,7 @@ func init() {
 		Config: func(any) simrt.Config {
 			return simrt.Config{MaxSteps: 100000, IdleProbe: 5 * time.Second, ClockJumpPM: 15}
 		},
-		Runs: clientRuns(60000, 6000000),
+		Runs: clientRuns(250000, 10000000),
 		Floors: []Floor{
 			{Name: "ctx-observation", Count: func(t string) int { return len(c10ObserveFloor(t)) }, Scenario: func(t string, i int) any { return c10ObserveFloor(t)[i] }},
 			{Name: "single-preemption", Sweep: true, Count: func(t string) int { return len(c10SweepFloor(t)) }, Scenario: func(t string, i int) any { return c10SweepFloor(t)[i] }},
